@@ -143,7 +143,7 @@ def step (d0 : DS) (line : String) : DS × String :=
   let sha := shaKey d.tbl
   -- src= / after=: which reader kind the harness hands to Create and what it does to it afterwards;
   -- the model's Create copies its input, so these words do not change its answer
-  let ws := ws.filter (fun w => !w.startsWith "sha=" && !w.startsWith "cls=" && !w.startsWith "src=" && !w.startsWith "after=")
+  let ws := ws.filter (fun w => !w.startsWith "sha=" && !w.startsWith "cls=" && !w.startsWith "src=" && !w.startsWith "after=" && !w.startsWith "used=" && !w.startsWith "via=")
   match ws with
   | ["reset"] => ({}, "ok")
   | ["create", "fs", rr] =>
